@@ -18,7 +18,7 @@ META = dict(
     functions=['scared.synchronization:Synchronizer.__init__/_check_input_ths/_check_output/_check_function/run', 'scared.synchronization:_ErrorCounter.error_occur'],
     bounds=dict(quick='every accept / raise / return-None pattern of the user function over N = 1..5 input traces (3^N patterns, explored by forking), returned data of the same and of a different length; '
                       'step lemma with SYMBOLIC counter values (processed p >= 0, synchronized s >= 0) over 2 traces; real ETS writer (str and Path outputs) on 7 patterns incl. all rejected',
-                thorough='N up to 7'),
+                thorough='N up to 9'),
     assumptions=['the writer is a recording TraceHeaderSet stand-in for the pattern exploration; the real ETSWriter is used on the bounded concrete runs',
                  'an exception from get_reader() when nothing was written (no file exists) is tolerated: the property speaks about the counters in that case'],
     outside=['more than 7 traces per run', 'KeyboardInterrupt from the user function'],
@@ -32,7 +32,7 @@ def prepare(tier, seed):
 
 
 def jobs(tier, seed):
-    nmax = 5 if tier == 'quick' else 7
+    nmax = 5 if tier == 'quick' else 9
     return [dict(name=f'patterns-n{n}', kind='patterns', n=n) for n in range(1, nmax + 1)] + [dict(name='step-lemma', kind='step'), dict(name='ets-writer', kind='ets')]
 
 
@@ -95,7 +95,7 @@ def job_patterns(job, res):
         ok = okrows and okcnt and refused and out.closed == 1 and r is out.reader and sy.processed_counter == n and len(out.rows) == len(acc)
         pr.prove(z3.BoolVal(bool(ok)), f'pattern {"".join(pattern)} (A accept, R raise, N None): written rows == accepted traces in order with own metadata and points; counters ({sy.processed_counter}, {sy.synchronized_counter}) == ({n}, {len(acc)}); second run() refused',
                  lambda m: dict(kind='pattern', pattern=''.join(pattern), key=dict(kind='pattern')), sample=(pattern == list('ANR'[:n])))
-    explore(res, body, max_paths=3000, timeout_ms=10000)
+    explore(res, body, max_paths=25000, timeout_ms=10000)        # 3^n patterns: 19683 for n = 9
 
 
 def job_step(job, res):
